@@ -18,18 +18,21 @@ TEXTS = {
     "C01": dict(design_ref="6/C01", technique=_T + "token-relational reply-order oracle over recorded client/backend histories",
                 level_text="seeded search over pipelines (forwarded, split, locally answered, rejected, QUIT) x per-backend reply release orders x segmentation with the real event loop; every "
                            "client stream must parse into exactly one reply per request, position by position equal to what the backends answered for that request (or the protocol constant "
-                           "for locally answered ones), nothing after QUIT's +OK; exploration level because the space is sampled",
+                           "for locally answered ones), nothing after QUIT's +OK; a crowd variant makes 140-330 connections ready in the same polls (event-list growth); exploration level because the space is sampled",
                 level_note=_sim_note),
     "C02": dict(design_ref="6/C02", technique=_T + "byte-exact comparison of client bytes with backend-side bytes (both directions)",
-                level_text="every documented single-key command with exotic argument bytes and all RESP2 reply shapes/sizes under segmentation, short reads/writes, EAGAIN, tiny send buffers, "
+                level_text="every documented single-key command with exotic argument bytes and all RESP2 reply shapes/sizes (incl. pseudo-random nested arrays with null/empty arrays, nil/empty bulks and error elements at any depth) under segmentation, short reads/writes, EAGAIN, tiny send buffers, "
                            "slow readers and small read buffers; backend bytes must equal the client's with only the command name lower-cased, client bytes must equal the backend's reply",
                 level_note=_sim_note + " Message sizes are capped when the drawn socket/read buffers are tiny so that transfers finish inside the settle budget."),
-    "C03": dict(design_ref="6/C03", technique=_T + "token ownership oracle under client disconnects, unroutable slots, timeouts and backend kills",
+    "C03": dict(design_ref="6/C03", technique=_T + "token ownership oracle under client disconnects, unroutable slots, timeouts and backend kills; plus linearizability of recorded client histories on shared keys against a per-key register/counter model (porcupine v1.3.0)",
                 level_text="concurrent client sessions with mid-flight disconnects, fd/object reuse, unowned slot ranges, refusing nodes, timeouts and killed backend connections; every delivered reply "
-                           "must be the token-matched backend reply (or merge) for that connection's own request at that position, or a proxy-generated error; missing replies are not judged here",
+                           "must be the token-matched backend reply (or merge) for that connection's own request at that position, or a proxy-generated error; missing replies are not judged here. Profile LIN: 2-5 windowed closed-loop clients on 1-4 shared keys + a counter (GET/SET/GETSET/SETNX/APPEND/INCR/DECR/DEL/"
+                           "STRLEN/EXISTS/MGET/MSET, unique values), fault-free, with MOVED/ASK redirects, and with backend kills/stalls/timeouts/client disconnects (operations answered with an error or not at all have "
+                           "an unknown outcome: pending forever, effect optional); the history stamped with driver action numbers must be linearizable (Illegal = violation; keys with more than 5 unknown-outcome "
+                           "operations are skipped; a search exceeding 60 s real time is inconclusive and never reported)",
                 level_note=_sim_note),
     "C04": dict(design_ref="6/C04", technique=_T + "routing oracle at the backends with an independent key-slot function and Redis' command classification",
-                level_text="random topologies and slot layouts, every documented command, keys over many slots incl. adversarial hash-tag brace arrangements, password and replica-read settings; "
+                level_text="random topologies and slot layouts, every documented command, keys over many slots incl. adversarial hash-tag brace arrangements, uneven replica counts (replica-less sets next to sets with replicas), password and replica-read settings; "
                            "each command must arrive in the replica set owning the reference slot (writes, scans, scripts at the master), and every backend connection must start with AUTH/READONLY as required",
                 level_note=_sim_note + " Read/write classification is Redis' command table held in the harness, not rcproxy's constant order."),
     "C06": dict(design_ref="6/C06", technique=_T + "wire-level fragment oracle at the backends (per-slot subsequence equality)",
@@ -41,12 +44,13 @@ TEXTS = {
                            "merge (MGET per-key elements in request order, DEL sum, MSET conjunction) of what each node returned",
                 level_note=_sim_note + " Thorough additionally enumerates all k! release orders (k<=5) of 40 fixed request shapes, and for a subset every cut of the first reply within its first 12 bytes."),
     "C08": dict(design_ref="6/C08", technique=_T + "planned-request oracle under seeded and enumerated segmentations",
-                level_text="well-formed pipelines cut into random chunks, 1-byte chunks and (thorough) every single cut position / cut pairs of fixed pipelines, read buffers from 16 B to 64 KiB; exactly the "
+                level_text="well-formed pipelines cut into random chunks, 1-byte chunks and (thorough) every single cut position / cut pairs of fixed pipelines, boundary-related cuts (on request boundaries, fixed distances around them, an earlier request's length into a later one; one read per chunk), read buffers from 16 B to 64 KiB; exactly the "
                            "planned requests must be recognised once each, in order, unaltered; the connection is never closed or answered early",
                 level_note=_sim_note),
     "C09": dict(design_ref="6/C09", technique=_T + "fair fault-free schedule with a bounded-liveness oracle in poll rounds and fake time",
                 level_text="open-loop clients against delayed backends under a strictly fair schedule; reply i must reach the client within 3 rounds / 1 fake second of the proxy having been handed "
-                           "the backend replies of requests 0..i, however many later requests are outstanding",
+                           "the backend replies of requests 0..i, however many later requests are outstanding; burst variant: 1700-5200 requests pipelined at once with the oldest answered last, "
+                           "so more than 1024 completed replies must be flushed behind it",
                 level_note=_sim_note + " The bound is evaluated only in rounds where the simulator itself delays nothing (no short I/O, room in the client socket)."),
     "C10": dict(design_ref="6/C10", technique=_T + "per (client,node) arrival-order oracle and SET;GET consequence check",
                 level_text="one connection per node, deep pipelines from several clients, interleavings of client reads, write signals (thorough: more than 256 queued tasks per poll), backend replies and "
@@ -69,7 +73,7 @@ TEXTS = {
                            "carrying the final description, writes must reach the claiming master, reads only it or its usable replicas, and unclaimed slots must be refused",
                 level_note=_sim_note + " Yield-point interleavings of the refresh goroutine (hook points exist in /repo) are not driven yet; helper goroutines run to quiescence between driver actions."),
     "C15": dict(design_ref="6/C15", technique=_T + "fault enumeration over connection-loss phase x pipeline position x request kind; bounded liveness in a fair settle phase",
-                level_text="backend connection FIN/RST before the fragment is read / after it is read / after k reply bytes, node down and up, redirect to an unknown node; after the last fault (fair settle "
+                level_text="backend connection FIN/RST before the fragment is read / after it is read / after k reply bytes, a peer reset that the proxy's next write meets without a prior hang-up event, node down and up, redirect to an unknown node; after the last fault (fair settle "
                            "phase, timeout+10 fake seconds) every request has a reply or its connection was closed by the proxy, data replies are still right, and a later client is served over a new connection",
                 level_note=_sim_note),
     "C16": dict(design_ref="6/C16", technique=_T + "stalled/late backends on the fake clock; position-exact reply oracle with deadline-relative lateness rule",
@@ -89,7 +93,7 @@ TEXTS = {
                            "workload with slow readers, 8-512 byte send buffers and 16-257 byte read buffers so that partial writes, spill and leftovers happen on the real paths",
                 level_note=_sim_note + " ReadFrom/WriteTo (gnet API remnants never called by rcproxy, not named in the statement) are explored only with COMP_STREAMS=1 and not held against C19."),
     "C20": dict(design_ref="6/C20", technique=_T + "long read histories; per-replica service-count oracle",
-                level_text="3-4 masters with 2-4 healthy replicas, about 300 reads per master mixed with writes; every replica healthy for the whole run must serve at least one of >= 200 reads of its "
+                level_text="3-4 masters with 2-4 healthy replicas, about 300 reads per master mixed with writes (random order, and regular cycles over the masters such as strict rotation or write-then-read pairs); every replica healthy for the whole run must serve at least one of >= 200 reads of its "
                            "master (miss probability < 1e-35 under uniform choice; math/rand is seeded per run), writes only at masters",
                 level_note=_sim_note),
 }
